@@ -47,6 +47,27 @@ Theorem C01_vtmf_missing_share_always_sentinel_refuted :
 Proof. exact open_missing_valid_type_witness. Qed.
 Print Assumptions C01_vtmf_missing_share_always_sentinel_refuted.
 
+(* Verify_Update verifies first and multiplies afterwards: a rejected share leaves the decryption state d unchanged ... *)
+Theorem C01_rejected_share_unchanged : forall G d dj, dec_update G d (dj, false) = (false, d).
+Proof. exact rejected_update_unchanged. Qed.
+Print Assumptions C01_rejected_share_unchanged.
+
+(* ... so over an arbitrary list of update attempts only the accepted ones count, in their order ... *)
+Theorem C01_only_accepted_updates_count : forall G atts d,
+  dec_attempts G d atts = dec_accumulate G d (map fst (filter snd atts)).
+Proof. exact dec_attempts_filter. Qed.
+Print Assumptions C01_only_accepted_updates_count.
+
+(* ... and opening after ANY interleaving of rejected offers (Bad) and correct shares (Good) returns T as soon as the
+   correct shares of all other players are among the offers *)
+Theorem C01_open_after_rejected_shares : forall G w x_own others atts T chain,
+  wf_group G -> 2 ^ Z.of_nat w <= gq G -> Z.of_nat w <= TMCG_MAX_FPOWM_T ->
+  wfe G x_own -> Forall (wfe G) others -> Permutation others (goods atts) ->
+  0 <= T < 2 ^ Z.of_nat w -> Forall (fun rb => wfe G (fst rb)) chain ->
+  open_run_att G w x_own others atts T chain = inl T.
+Proof. exact open_after_rejected_shares. Qed.
+Print Assumptions C01_open_after_rejected_shares.
+
 (* Quadratic-residue encoding.  nqr i is player i's residuosity test, J i the units of Jacobi symbol +1 and
    U i the units modulo m_i; the premises are the algebra of a valid key (squares are residues, y_i is a
    non-residue of Jacobi symbol +1).  For every k >= 1, w, T < 2^w and every chain of maskings with admissible
@@ -77,4 +98,7 @@ Example C01_nonvacuous_group : wf_group {| gp := 23; gq := 11; gg := 2 |}.
 Proof. exact small_group_wf. Qed.
 Example C01_nonvacuous_run :
   open_run {| gp := 23; gq := 11; gg := 2 |} 2 3 [5; 7] [5; 7] 3 [(4, true); (9, false)] = inl 3.
+Proof. vm_compute. reflexivity. Qed.
+Example C01_nonvacuous_rejected :
+  open_run_att {| gp := 23; gq := 11; gg := 2 |} 2 3 [5; 7] [Bad 4; Good 7; Bad 9; Bad 1; Good 5] 3 [(4, true); (9, false)] = inl 3.
 Proof. vm_compute. reflexivity. Qed.
